@@ -65,7 +65,7 @@ func ProtoMonitor(sc *Scenario, w *World, x *Exec) []Violation {
 			for _, f := range w.Tap.Frames {
 				if f.Stream == ms.Name && f.Note != "" && f.Seq < teardown {
 					switch {
-					case f.Note == "c.closesend", f.Note == "break", f.Note == "cancel-propagated", f.Note == "client-abort", strings.HasPrefix(f.Note, "handler-returned"):
+					case f.Note == "c.closesend", f.Note == "break", f.Note == "cancel-propagated", f.Note == "client-abort", f.Note == "server-abort", strings.HasPrefix(f.Note, "handler-returned"):
 						teardown = f.Seq
 					}
 				}
